@@ -240,6 +240,11 @@ func runOp(op *casefmt.Op, st *opState) {
 					obs.Exec2 = "panic: " + safeSprint(r)
 				}
 			}()
+			for k, v := range op.VarsBetween {
+				if st.vars != nil {
+					st.vars[k] = v
+				}
+			}
 			rows2, err2 := q.Exec()
 			if err2 != nil {
 				obs.Exec2 = "err: " + errText(err2)
